@@ -104,13 +104,12 @@ impl FunctionExpression for DecodeLz4Fn {
             .map_resolve_with_default(ctx, || DEFAULT_PREPENDED_SIZE.clone())?
             .try_boolean()?;
 
-        let buffer_size: usize;
-        if let Ok(sz) = u32::try_from(buf_size) {
-            buffer_size = sz as usize;
-        } else {
-            // If the buffer size is too large, we default to a maximum size
-            buffer_size = usize::MAX;
+        if buf_size < 0 {
+            return Err("buf_size must not be negative".into());
         }
+        // If the buffer size is too large, we default to a maximum size. (`usize::MAX` cannot
+        // be allocated at all: `Vec::with_capacity` panics with "capacity overflow".)
+        let buffer_size = u32::try_from(buf_size).unwrap_or(u32::MAX) as usize;
         decode_lz4(value, buffer_size, prepended_size)
     }
 
